@@ -114,7 +114,7 @@ def _check(task):
     msd0 = max(0.0, (q["ga"] + q["gb"] - 2 * lmax) / n0)           # lattice units^2 (replication leaves it unchanged)
     scale = (q["ga"] + q["gb"]) / n0 + 1e-9
     probs = []
-    devs = [0.0]
+    devs = [(0.0, "")]
     for k in (1, 2, 3, 5, 7, 41):                                    # n0*k covers every remainder modulo the SIMD width 4; 41 -> ~200 atoms
         n = n0 * k
         big = k == 41 and case["id"] % 5 == 0
@@ -129,19 +129,19 @@ def _check(task):
         exp = msd0 * G * G
         for par in (True, False):
             r = float(md.rmsd(md.Trajectory(t.xyz.copy(), t.topology), ref, 0, parallel=par)[0])
-            devs.append(abs(r * r - exp) / np.sqrt(tol * scale * G * G))
+            devs.append((abs(r * r - exp) / np.sqrt(tol * scale * G * G), "rmsd n=%d" % n))
             if abs(r * r - exp) > tol:
                 probs.append("rmsd(parallel=%s) = %.6f but the minimum over proper rotations is %.6f (n=%d, %s)" % (par, r, np.sqrt(exp), n, case["kind"]))
         # symmetric
         r2 = float(md.rmsd(md.Trajectory(ref.xyz.copy(), ref.topology), t, 0)[0])
-        devs.append(abs(r2 * r2 - exp) / np.sqrt(tol * scale * G * G))
+        devs.append((abs(r2 * r2 - exp) / np.sqrt(tol * scale * G * G), "rmsd n=%d" % n))
         if abs(r2 * r2 - exp) > tol:
             probs.append("rmsd(ref, target) differs from the minimum (symmetry) (n=%d)" % n)
         # precentered shortcut
         tc = md.Trajectory(t.xyz.copy(), t.topology); rc = md.Trajectory(ref.xyz.copy(), ref.topology)
         tc.center_coordinates(); rc.center_coordinates()
         r3 = float(md.rmsd(tc, rc, 0, precentered=True)[0])
-        devs.append(abs(r3 * r3 - exp) / np.sqrt(tol * scale * G * G))
+        devs.append((abs(r3 * r3 - exp) / np.sqrt(tol * scale * G * G), "rmsd n=%d" % n))
         if abs(r3 * r3 - exp) > tol:
             probs.append("rmsd(precentered=True) after center_coordinates differs from the minimum (n=%d)" % n)
         # ... and the shortcut is only as good as the centring: after superposing the centred copies onto an off-origin frame the
@@ -153,13 +153,13 @@ def _check(task):
                 r5 = float(md.rmsd(tc, rc, 0, precentered=True)[0])
             except ValueError:
                 r5 = None
-            devs.append(0.0 if r5 is None else abs(r5 * r5 - exp) / np.sqrt(tol * scale * G * G))
+            devs.append((0.0 if r5 is None else abs(r5 * r5 - exp) / np.sqrt(tol * scale * G * G), "precentered-after-superpose n=%d" % n))
             if r5 is not None and abs(r5 * r5 - exp) > tol:
                 probs.append("rmsd(precentered=True) after center_coordinates and a later superpose differs from the minimum (n=%d)" % n)
         # separate atom selections for target and reference (any order): pair perm[i] of a shuffled target with i of the reference
         tsh = md.Trajectory(t.xyz[:, np.argsort(perm)].copy(), t.topology)          # atom perm[i] of tsh = atom i of t
         r4 = float(md.rmsd(tsh, ref, 0, atom_indices=perm, ref_atom_indices=np.arange(n))[0])
-        devs.append(abs(r4 * r4 - exp) / np.sqrt(tol * scale * G * G))
+        devs.append((abs(r4 * r4 - exp) / np.sqrt(tol * scale * G * G), "rmsd n=%d" % n))
         if abs(r4 * r4 - exp) > tol:
             probs.append("rmsd with different atom_indices / ref_atom_indices orders differs from the minimum (n=%d)" % n)
         # superpose attains the minimum by a rigid motion
@@ -169,7 +169,7 @@ def _check(task):
         if np.abs(d0 - d1).max() > 2e-5 * (1 + mag):
             probs.append("superpose is not a rigid motion (n=%d)" % n)
         plain = float(((t2.xyz[0].astype(np.float64) - ref.xyz[0]) ** 2).sum(1).mean())
-        devs.append(abs(plain - exp) / np.sqrt(tol * scale * G * G))
+        devs.append((abs(plain - exp) / np.sqrt(tol * scale * G * G), "superpose n=%d" % n))
         if abs(plain - exp) > 4 * tol + 1e-9:
             probs.append("after superpose the unfitted RMSD is %.6f, the minimum is %.6f (n=%d, %s)" % (np.sqrt(plain), np.sqrt(exp), n, case["kind"]))
         # rmsf: frames that are rigidly moved copies of ONE conformation coincide after optimal superposition on the reference,
@@ -178,7 +178,7 @@ def _check(task):
             frames = np.stack([A] + [(np.tile(X, (k, 1)) * G) @ _rot(rs).T + rs.uniform(-2, 2, size=3) for _ in range(3)])
             try:
                 f = md.rmsf(md.Trajectory(frames.astype(np.float32), _top(n)), ref, 0)
-                devs.append(0.0 if planar or _top_gap(q) <= 2e-3 else float(np.max(f)) ** 2 / np.sqrt(tol * scale * G * G))
+                devs.append((0.0 if planar or _top_gap(q) <= 2e-3 else float(np.max(f)) ** 2 / np.sqrt(tol * scale * G * G), "rmsf n=%d" % n))
                 if float(np.max(f)) > 2e-3 * (1 + np.sqrt(scale) * G) and not planar and _top_gap(q) > 2e-3:      # (a double root has a family of optimal rotations)
                     probs.append("rmsf of rigidly moved copies of one conformation is %.5f, not 0 (n=%d)" % (float(np.max(f)), n))
             except Exception as e:  # noqa
@@ -190,14 +190,14 @@ def _check(task):
             t3 = md.Trajectory(A2.astype(np.float32)[None], _top(n + 3)); ref3 = md.Trajectory(B2.astype(np.float32)[None], _top(n + 3))
             t3.superpose(ref3, 0, atom_indices=np.arange(n), ref_atom_indices=np.arange(n))
             plain = float(((t3.xyz[0, :n].astype(np.float64) - ref3.xyz[0, :n]) ** 2).sum(1).mean())
-            devs.append(abs(plain - exp) / np.sqrt(tol * scale * G * G))
+            devs.append((abs(plain - exp) / np.sqrt(tol * scale * G * G), "superpose n=%d" % n))
             if abs(plain - exp) > 4 * tol + 1e-9:
                 probs.append("superpose(atom_indices subset): alignment atoms not at the minimum")
             dd0 = np.linalg.norm(A2[:, None] - A2[None], axis=-1); dd1 = np.linalg.norm(t3.xyz[0].astype(np.float64)[:, None] - t3.xyz[0][None], axis=-1)
             if np.abs(dd0 - dd1).max() > 2e-5 * (1 + mag):
                 probs.append("superpose(atom_indices subset): passengers not moved rigidly")
     if probs:
-        probs.append("MAXDEV=%.3g" % max(devs))
+        probs.append("MAXDEV=%.3g (%s)" % max(devs))
     return probs or None
 
 
@@ -257,12 +257,12 @@ def run(ctx):
         # the open finding covers only the float32 loss of accuracy where the largest root of the quartic is (nearly) double -- coplanar
         # sets, mirror-symmetric pairs: the float32-evaluated coefficients carry ~50 eps of noise, a double root moves by the SQUARE ROOT
         # of that, so lambda is good to ~1e-3 relative instead of ~1e-6.  The class is decided from the specification's exact quartic
-        # (planarity flag, or gap between its two largest roots below 2e-3); the deviation must stay below 3 sqrt(ordinary tolerance x (Ga+Gb)/N), the square-root law of a perturbed double root;
+        # (planarity flag, or gap between its two largest roots below 2e-3); the deviation must stay below 10 sqrt(ordinary tolerance x (Ga+Gb)/N), the square-root law of a perturbed double root;
         # anything larger, or a non-rigid motion, is a violation like everywhere else
         key = None
         if st == "ok" and (tk[1]["planar"] or _top_gap(tk[1]) < 2e-3):
-            maxdev = float(val[-1].split("=")[1]) if val[-1].startswith("MAXDEV=") else 1e9
-            if maxdev < 3.0 and not any("not a rigid motion" in v or "not moved rigidly" in v or "raised" in v for v in val):
+            maxdev = float(val[-1].split("=")[1].split()[0]) if val[-1].startswith("MAXDEV=") else 1e9
+            if maxdev < 10.0 and not any("not a rigid motion" in v or "not moved rigidly" in v or "raised" in v for v in val):
                 key = "rmsd:planar_alignment_set"
         if st == "ok" and val[-1].startswith("MAXDEV="):
             val = val[:-1]
